@@ -137,7 +137,8 @@ def _format_rules(c, t, toks, names, pic, oks):
                         ok = tag == what
                         why = f"index {w[0][2]!r} is not the {what} of the value"
                 else:
-                    ok = tag == ('div', what)
+                    # (a path on which the time of day is a known constant indexes with that constant)
+                    ok = tag == ('div', what) or (w[0][2].is_const() and 0 <= w[0][2].c <= 59)
                     why = f"index {w[0][2]!r} is not the quotient by the unit {what}"
             c.rec('C04', f"format {t} [{pic}]: rendered from its own table indexed by its own field", ok, why)
         elif kind in ('DayName', 'MonthName'):
